@@ -681,6 +681,9 @@ func (r *runner) run() bool {
 	if sc.Kind == "d14" {
 		return r.runD14()
 	}
+	if sc.Kind == "d15" {
+		return r.runD15()
+	}
 	c := &conn{rec: r.rec, r: r}
 	s := r.newService(c)
 	r.s = s
@@ -1734,6 +1737,75 @@ func (r *runner) runD14() bool {
 	return true
 }
 
+// runD15: Shutdown from another goroutine while the OnServe hook of the application is still running (the service is
+// started, subscribed and has sent its reset; the request listener is not yet running). Shutdown returns, and when the
+// hook has returned the blocked Serve call returns too; a following serve cycle works. Runtime checks only.
+func (r *runner) runD15() bool {
+	c1 := &conn{rec: r.rec, r: r, gen: 0}
+	s := r.newService(c1)
+	r.s = s
+	inHook, leaveHook := make(chan struct{}), make(chan struct{})
+	var once int32
+	s.SetOnServe(func(*res.Service) {
+		if atomic.CompareAndSwapInt32(&once, 0, 1) {
+			close(inHook)
+			select {
+			case <-leaveHook:
+			case <-time.After(5 * time.Second):
+			}
+		}
+	})
+	served := make(chan error, 1)
+	go func() { served <- s.Serve(c1) }()
+	select {
+	case <-inHook:
+	case <-time.After(5 * time.Second):
+		r.violation("harness-d15: the OnServe hook was not called within 5 s")
+		close(leaveHook)
+		return r.shutdown(s)
+	}
+	if !r.shutdown(s) {
+		close(leaveHook)
+		return false
+	}
+	if r.sc.Seed%2 == 1 {
+		// the application serves again before the first hook has returned
+		c2 := &conn{rec: r.rec, r: r, gen: 1}
+		atomic.StoreInt32(&r.curGen, 1)
+		served2 := make(chan error, 1)
+		go func() { served2 <- s.Serve(c2) }()
+		for i := 0; i < 50000 && atomic.LoadInt32(&r.resets[1]) == 0; i++ {
+			time.Sleep(100 * time.Microsecond)
+		}
+		close(leaveHook)
+		select {
+		case <-served:
+		case <-time.After(3 * time.Second):
+			r.violation("serve-hang: the Serve call whose cycle was shut down during its OnServe hook did not return within 3 s after the hook had returned (a second cycle is being served)")
+		}
+		r.submitPlain("g1")
+		r.settle(time.Second)
+		if !r.shutdown(s) {
+			return false
+		}
+		select {
+		case <-served2:
+		case <-time.After(5 * time.Second):
+			r.violation("serve-hang: Serve did not return after Shutdown")
+			return false
+		}
+		return true
+	}
+	close(leaveHook)
+	select {
+	case <-served:
+	case <-time.After(3 * time.Second):
+		r.violation("serve-hang: the Serve call whose cycle was shut down during its OnServe hook did not return within 3 s after the hook had returned")
+		return false
+	}
+	return true
+}
+
 // runRestartLoop: many stop/start cycles in which Serve is called again as soon as Shutdown has returned (the service
 // is stopped then), without waiting for the previous Serve call to return. The new Serve must be accepted and must
 // not panic, the previous Serve call must return although a new cycle is being served, and each cycle publishes its
@@ -2149,7 +2221,7 @@ func runScenario(sc scenario) (Case, []ImplViolation, bool) {
 	}
 	cv := &conv{r: r, widx: map[uint64]int{}, retired: map[uint64]bool{}, running: map[uint64]int{}, prod: map[uint64]int{}, prodSub: map[uint64]submission{},
 		pub: map[uint64]int{}, subIdx: map[uint64]int{}, groupNum: map[string]int{}, svc: "stopped"}
-	if sc.Kind != "d9" && sc.Kind != "d11" && sc.Kind != "d12" && sc.Kind != "d13" && sc.Kind != "d14" && sc.Kind != "restartloop" {
+	if sc.Kind != "d9" && sc.Kind != "d11" && sc.Kind != "d12" && sc.Kind != "d13" && sc.Kind != "d14" && sc.Kind != "d15" && sc.Kind != "restartloop" {
 		if err := cv.convert(log); err != nil {
 			r.violation("harness-conversion: " + err.Error())
 		}
@@ -2278,6 +2350,10 @@ func main() {
 				Cycles: 1, Shutdown: "after", Seed: rng.Next()%1000000/2*2 + uint64(i%2)})
 		}
 		for i := 0; i < nd; i++ {
+			scs = append(scs, scenario{Kind: "d15", Workers: []int{1, 2, 32}[i%3], InCh: 1024, Groups: []string{"g1"},
+				Cycles: 1, Shutdown: "after", Seed: rng.Next()%1000000/2*2 + uint64(i%2)})
+		}
+		for i := 0; i < nd; i++ {
 			scs = append(scs, scenario{Kind: "d14", Workers: []int{1, 2, 32}[i%3], InCh: 1024, Groups: []string{"g1"},
 				Cycles: 1, Shutdown: "after", Seed: rng.Next() % 1000000})
 		}
@@ -2347,7 +2423,7 @@ func main() {
 	}
 	hdr := "From stdpp Require Import gmap.\nFrom Coq Require Import NArith String.\nFrom GoRes Require Import Run.Run_" + runMod + ".\nLocal Open Scope string_scope."
 	Emit(o, *prop, hdr, "scase",
-		"real res.Service runs (worker counts 1/2/3/8/32, in-channel 1/2/1024, 1-6 producer goroutines using WithGroup incl. nested submissions from callbacks, requests through the in-channel incl. Parallel resources, publishers, 1-3 serve/shutdown cycles, shutdown after/during/none, seeded schedule perturbation at hook points) + directed schedules d1-d10 (enqueue after close-nil, publish after shutdown, append before re-lock, parked Signal, producers during parked close, ResetAll during Serve start-up, query expiry during Shutdown with a same-group callback in flight, an in-flight callback emitting an event and a query event after the connection was closed followed by a serve cycle on a new connection; d9: first Serve refused its subscriptions while a With callback from the started window is in flight or the first Close is slow, Serve retried in a loop on a new connection - runtime checks only; d10: a query request and the expiry of a query event while a callback of the resource's group is executing; restartloop (C03 only): 1500 stop/start cycles with Serve called as soon as Shutdown has returned - runtime checks only; d11: Serve called in the tail of Shutdown, after the service was flagged stopped and before Shutdown returned - runtime checks only; d12: Shutdown after a start that failed before the service was flagged started; d13: Shutdown while a callback executes for 6 s; d14: Shutdown while a callback keeps re-submitting itself and another goroutine keeps submitting to the same busy group; dep: callbacks of different idle groups accepted back to back that wait for each other (no accepted callback may wait in the queue while workers are idle); reqorder: one sender delivering 400 get/access/call requests of one group back to back, each to the channel of the subscription its subject matches, with the runtime check that their callbacks start in delivery order) + simultaneous submissions to an idle group behind a spin barrier (burst) + high-contention stress runs (thousands of tiny callbacks on 1-2 groups); every serve cycle gets a fresh connection object and anything published on an earlier one is a violation; one case = one run's label trace; non-trivial = a callback was appended to a live work item and >= 2 workers took work, or a directed schedule; distinct by trace",
+		"real res.Service runs (worker counts 1/2/3/8/32, in-channel 1/2/1024, 1-6 producer goroutines using WithGroup incl. nested submissions from callbacks, requests through the in-channel incl. Parallel resources, publishers, 1-3 serve/shutdown cycles, shutdown after/during/none, seeded schedule perturbation at hook points) + directed schedules d1-d10 (enqueue after close-nil, publish after shutdown, append before re-lock, parked Signal, producers during parked close, ResetAll during Serve start-up, query expiry during Shutdown with a same-group callback in flight, an in-flight callback emitting an event and a query event after the connection was closed followed by a serve cycle on a new connection; d9: first Serve refused its subscriptions while a With callback from the started window is in flight or the first Close is slow, Serve retried in a loop on a new connection - runtime checks only; d10: a query request and the expiry of a query event while a callback of the resource's group is executing; restartloop (C03 only): 1500 stop/start cycles with Serve called as soon as Shutdown has returned - runtime checks only; d11: Serve called in the tail of Shutdown, after the service was flagged stopped and before Shutdown returned - runtime checks only; d12: Shutdown after a start that failed before the service was flagged started; d13: Shutdown while a callback executes for 6 s; d15: Shutdown from another goroutine while the application's OnServe hook is still running, with and without a new Serve before the hook returns; d14: Shutdown while a callback keeps re-submitting itself and another goroutine keeps submitting to the same busy group; dep: callbacks of different idle groups accepted back to back that wait for each other (no accepted callback may wait in the queue while workers are idle); reqorder: one sender delivering 400 get/access/call requests of one group back to back, each to the channel of the subscription its subject matches, with the runtime check that their callbacks start in delivery order) + simultaneous submissions to an idle group behind a spin barrier (burst) + high-contention stress runs (thousands of tiny callbacks on 1-2 groups); every serve cycle gets a fresh connection object and anything published on an earlier one is a violation; one case = one run's label trace; non-trivial = a callback was appended to a live work item and >= 2 workers took work, or a directed schedule; distinct by trace",
 		cases, dist, nil, impl, 40)
 	if len(impl) > 0 {
 		fmt.Fprintln(os.Stderr, "impl violations:", len(impl))
